@@ -1,8 +1,8 @@
 (* Non-vacuity of the hypotheses of the kinematics theorems (Compose_kinematics.v, Compose_kinematics_links.v): a birefringent,
    dispersion-free medium (ordinary index 3/2, extraordinary index 7/4), beams along z. *)
-From Coq Require Import Reals Lra List.
+From Coq Require Import Reals Lra Lia List FunctionalExtensionality.
 From Coquelicot Require Import Coquelicot.
-From SpdVerif Require Import Base.Rx Model.Optics Model.Fresnel Gen.Fresnel Gen.Kinematics Proofs.Compose_kinematics
+From SpdVerif Require Import Base.Rx Model.Optics Model.Fresnel Gen.Fresnel Gen.Kinematics Proofs.C02_gen Proofs.Compose_kinematics
   Proofs.Compose_kinematics_links.
 From SpdVerif Require Import Base.CxPM Model.PMParams Gen.PMIntegrand Model.Hom2 Gen.HomSrc.
 From SpdVerif Require Import Spec.CrystalTypes Gen.Crystals Proofs.Sellmeier.
@@ -46,14 +46,35 @@ Proof.
   destruct (kin_positive_off ex_index w ez Extraordinary) as (_ & Hv & _); [rewrite E; lra | rewrite ex_slope, E; lra | lra].
 Qed.
 
-(* the smoothness hypotheses of kin_slope_vs_derivative / kin_group_velocity_vs_derivative, with M = 0 *)
-Lemma kin_smooth_nonvacuous : forall d p,
-  (forall t k, (k <= 3)%nat -> ex_derive_n (fun lm => ex_index lm d p) k t) /\
-  (forall t, Rabs (Derive_n (fun lm => ex_index lm d p) 3 t) <= 0).
+(* the local smoothness hypotheses of kin_slope_vs_derivative / kin_group_velocity_vs_derivative with a genuinely dispersive index:
+   n(lambda) = 2 - 100000 lambda (1.845 at 1.55 um, normal dispersion).  It is smooth on every interval, its third derivative is 0
+   (M = 0), and the code's slope is its derivative, -100000: not zero. *)
+Definition lin_index : R -> vec -> polarization -> R := fun lm _ _ => 2 - 100000 * lm.
+
+Lemma lin_D1 : Derive (fun lm : R => 2 - 100000 * lm) = fun _ => -100000.
+Proof. apply functional_extensionality. intro t. apply is_derive_unique. auto_derive; [exact I | ring]. Qed.
+Lemma const_D : forall c : R, Derive (fun _ : R => c) = fun _ => 0.
+Proof. intro c. apply functional_extensionality. intro t. apply Derive_const. Qed.
+
+Lemma kin_smooth_nonvacuous : forall w d p, 0 < w ->
+  let l := lam w in let h := fd_step_gen l in
+  l - 2 * h < l - h /\ l + h < l + 2 * h /\
+  (forall t, l - 2 * h < t < l + 2 * h -> forall k, (k <= 3)%nat -> ex_derive_n (fun lm => lin_index lm d p) k t) /\
+  (forall t, l - h < t < l + h -> Rabs (Derive_n (fun lm => lin_index lm d p) 3 t) <= 0) /\
+  slope lin_index w d p = -100000 /\ Derive (fun lm => lin_index lm d p) l = -100000.
 Proof.
-  intros d p. split.
-  - intros t k _. unfold ex_index. apply ex_derive_n_const.
-  - intros t. unfold ex_index. rewrite Derive_n_const, Rabs_R0. lra.
+  intros w d p Hw l h. pose proof (fd_step_pos l) as Hh. fold h in Hh. unfold lin_index.
+  split; [lra|]. split; [lra|]. split; [|split; [|split]].
+  - intros t _ k Hk.
+    destruct k as [|[|[|[|k]]]]; [exact I | | | | lia].
+    + cbn. auto_derive. exact I.
+    + cbn. rewrite lin_D1. apply ex_derive_const.
+    + cbn. rewrite lin_D1, const_D. apply ex_derive_const.
+  - intros t _. cbn. rewrite lin_D1, const_D, Derive_const, Rabs_R0. lra.
+  - unfold slope, derivative_at_gen, fd_quotient_gen, fd_forward_point_gen, fd_backward_point_gen.
+    replace (lam w / 1) with l by (unfold l; field). fold h.
+    replace 0.5 with (/ 2) by lra. field. lra.
+  - rewrite lin_D1. reflexivity.
 Qed.
 
 (* F14: a parameter record whose nine rate-level scalars are read off three beams *)
